@@ -46,6 +46,7 @@ type progCtx struct {
 	restyp []string
 	nloop  int
 	defs   []string // loops, each a definition of its own (inner loops first)
+	ignore map[string]bool // calls made for synchronisation only (mutex / cond): statements without effect on the state
 }
 
 func (c *progCtx) newScalar(goName, typ string) *pvar {
@@ -240,6 +241,14 @@ func (c *progCtx) zexp(x ast.Expr, pre *[]string, want string) (string, error) {
 	y, err := c.rw(x, pre, true)
 	if err != nil {
 		return "", err
+	}
+	if want == "bool" {
+		// a boolean stored into a variable or returned: 0 / 1
+		s, t, err := c.closure(y, "")
+		if err == nil && t != "bool" {
+			err = fmt.Errorf("expression %s has type %s, bool wanted", pr(c.p.fset, x), t)
+		}
+		return s, err
 	}
 	s, _, err := c.closure(y, want)
 	return s, err
@@ -555,6 +564,11 @@ func (c *progCtx) stmt(s ast.Stmt) (string, error) {
 		c.defs = append(c.defs, fmt.Sprintf("Definition %s_loop%d : stmt :=\n SFor %s\n (%s)\n (%s).\n", c.coq, k, cond, post, body))
 		out = append(out, fmt.Sprintf("%s_loop%d", c.coq, k))
 		return seqOf(out), nil
+	case *ast.ExprStmt:
+		if call, ok := s.X.(*ast.CallExpr); ok && len(call.Args) == 0 && c.ignore[pr(fset, call.Fun)] {
+			return "SSkip", nil
+		}
+		return "", fmt.Errorf("unsupported call statement %s", pr(fset, s))
 	case *ast.BranchStmt:
 		if s.Label != nil {
 			return "", fmt.Errorf("labelled %s", s.Tok)
@@ -605,6 +619,9 @@ func (c *progCtx) stmt(s ast.Stmt) (string, error) {
 				}
 				return "", fmt.Errorf("unsupported slice result %s", pr(fset, r))
 			}
+			if rt == "any" || strings.HasPrefix(rt, "*") {
+				rt = "int" // an opaque handle
+			}
 			if !typeOK(rt) {
 				return "", fmt.Errorf("unsupported result type %s", rt)
 			}
@@ -628,10 +645,16 @@ func translateProg(coq, dir, fname string, opts []string) (string, error) {
 	if !ok || fd.Body == nil {
 		return "", fmt.Errorf("function %s not found in %s", fname, dir)
 	}
-	c := &progCtx{p: p, coq: coq, byName: map[string]*pvar{}, decl: map[string]int{}}
+	c := &progCtx{p: p, coq: coq, byName: map[string]*pvar{}, decl: map[string]int{}, ignore: map[string]bool{}}
 	c.push()
 	for _, o := range opts {
 		k, v, _ := strings.Cut(o, "=")
+		if k == "ignore" {
+			for _, d := range strings.Split(v, ",") {
+				c.ignore[d] = true
+			}
+			continue
+		}
 		for _, d := range strings.Split(v, ",") {
 			if d == "" || d == "-" {
 				continue
